@@ -18,7 +18,7 @@ CONSTANTS Templates, Export
 Space(t) == CASE t = "branch" -> Branch [] t = "loop" -> LoopP [] t = "nested" -> Nested
               [] t = "straight" -> Straight [] t = "call" -> CallP [] t = "rec" -> RecP
               [] t = "closure" -> Closure [] t = "loopbranch" -> LoopBranch [] t = "rangebranch" -> RangeBranch [] t = "strbranch" -> StrBranch
-              [] t = "sharedcmp" -> SharedCmp [] t = "fltbranch" -> FltBranch [] t = "extract" -> Extract [] t = "ubig" -> UBig [] t = "consttype" -> ConstType [] t = "sibloops" -> SibLoops [] t = "dectree" -> DecTree [] t = "orand" -> OrAnd [] t = "switch2" -> Switch2
+              [] t = "sharedcmp" -> SharedCmp [] t = "fltbranch" -> FltBranch [] t = "extract" -> Extract [] t = "ubig" -> UBig [] t = "consttype" -> ConstType [] t = "sibloops" -> SibLoops [] t = "dectree" -> DecTree [] t = "labeled" -> Labeled [] t = "orand" -> OrAnd [] t = "switch2" -> Switch2
               [] OTHER -> BigConst
 Programs == UNION {Space(t) : t \in Templates}
 
